@@ -33,6 +33,12 @@ def run(tier):
     r = tlc.model_check('run', 'SaveResume_mc', 'SaveResume_mc.cfg', timeout=1800, coverage=False)
     rep.add_tlc(r, 'SaveResume_mc')
     rep.model_violation(r, 'SaveResume_mc')
+    # the model must be able to see a loss: the I/O program on a 48K machine, whose AY state a 48K snapshot does not carry
+    # (named deviation AyLostOn48K = the open finding resume:ay-on-48k), has to violate Transparent
+    rn = tlc.model_check('run', 'SaveResume_mc', 'SaveResume_neg.cfg', timeout=600, coverage=False)
+    rep.add_tlc(rn, 'SaveResume_neg(expected violation)')
+    if 'Transparent' not in rn.violated:
+        raise MachineryError('SaveResume_neg: the model no longer sees the AY state lost by a 48K snapshot (vacuous Transparent?)')
     cbuild.build()
     per = 26 if tier == 'quick' else 400
     with mp.get_context('fork').Pool(16) as pool:
